@@ -242,7 +242,6 @@ func ParamMarkerOffsets(sql string) (offsets []int, err error) {
 	offsets = make([]int, 0)
 	tokenizer := NewScanner(sql)
 	for {
-		inVersionComment := tokenizer.specialComment != nil
 		tkn, pos, _ := tokenizer.scan()
 		switch tkn {
 		case 0, eofChar:
@@ -251,8 +250,9 @@ func ParamMarkerOffsets(sql string) (offsets []int, err error) {
 			}
 			return offsets, nil
 		case paramMarker:
-			if inVersionComment || tokenizer.specialComment != nil {
-				// positions inside /*! ... */ are relative to the comment body
+			if tokenizer.specialComment != nil {
+				// the token was taken from the body of a /*! ... */ or /*+ ... */ comment (the scanner leaves that mode
+				// before it returns the first token behind the comment); positions in there are rebased
 				return nil, fmt.Errorf("parameter marker inside a version comment is not supported")
 			}
 			offsets = append(offsets, pos.Offset)
